@@ -1067,7 +1067,7 @@ class Stack(list):
     def op_numequal(self):
         if not self.is_arithmetic(2):
             return False
-        if self.pop() == self.pop():
+        if self.pop_as_number() == self.pop_as_number():
             self.append(b'\1')
         else:
             self.append(b'')
@@ -1080,7 +1080,7 @@ class Stack(list):
     def op_numnotequal(self):
         if not self.is_arithmetic(2):
             return False
-        if self.pop() != self.pop():
+        if self.pop_as_number() != self.pop_as_number():
             self.append(b'\1')
         else:
             self.append(b'')
